@@ -179,17 +179,20 @@ class MemoryAccess:
         if self.state == DMState.IDLE:
             self.state = DMState.WAIT_QUERY
             self.address = dest_address
-            data = self.query.read(
-                dest_address,
-                direct,
-                address,
-                object_count,
-                object_byte_size,
-                signed,
-                return_raw_bytes,
-                max_timeout,
-            )
-            self.state = DMState.IDLE
+            try:
+                data = self.query.read(
+                    dest_address,
+                    direct,
+                    address,
+                    object_count,
+                    object_byte_size,
+                    signed,
+                    return_raw_bytes,
+                    max_timeout,
+                )
+            finally:
+                # also when the query fails: the next operation must be possible
+                self.state = DMState.IDLE
             return data
         else:
             raise RuntimeWarning("Process already Running")
@@ -215,10 +218,13 @@ class MemoryAccess:
         if self.state == DMState.IDLE:
             self.state = DMState.WAIT_QUERY
             self.address = dest_address
-            self.query.write(
-                dest_address, direct, address, values, object_byte_size, max_timeout
-            )
-            self.state = DMState.IDLE
+            try:
+                self.query.write(
+                    dest_address, direct, address, values, object_byte_size, max_timeout
+                )
+            finally:
+                # also when the query fails: the next operation must be possible
+                self.state = DMState.IDLE
 
     def set_seed_generator(self, seed_generator: callable) -> None:
         """
